@@ -206,12 +206,14 @@ CENTRES = [(4, 4), (4, 12), (10, 7), (13, 13), (12, 2)]      # (y, x)
 LABELSETS = {'consecutive': [1, 2, 3, 4, 5], 'gaps': [3, 7, 8, 21, 40]}
 
 
-def _wcs():
+def _wcs(wide=False):
+    """TAN projection; `wide`: 0.25 deg pixels, so that the pixel scale varies measurably across the
+    frame (a sky aperture converted at different positions gets different pixel radii)."""
     from astropy.wcs import WCS
     w = WCS(naxis=2)
     w.wcs.ctype = ['RA---TAN', 'DEC--TAN']
     w.wcs.crpix = [6, 7]
-    w.wcs.cdelt = [-2e-4, 2e-4]
+    w.wcs.cdelt = [-0.25, 0.25] if wide else [-2e-4, 2e-4]
     w.wcs.crval = [10.0, 20.0]
     return w
 
@@ -304,7 +306,7 @@ def make_aperstats(cfg):
             yy, xx = np.mgrid[0:SIZE, 0:SIZE]
             mask |= (yy - pos[n - 1][1]) ** 2 + (xx - pos[n - 1][0]) ** 2 < 36
     kind = cfg.get('aper', 'circ')
-    wcs = _wcs() if (cfg.get('wcs') or kind == 'sky') else None
+    wcs = _wcs(wide=(kind == 'sky')) if (cfg.get('wcs') or kind == 'sky') else None
     if kind == 'circ':
         aper = CircularAperture(pos, 2.6)
     elif kind == 'ell':
@@ -315,7 +317,7 @@ def make_aperstats(cfg):
         aper = RectangularAperture(pos, 4.2, 2.9, theta=0.3)
     else:
         sky = wcs.pixel_to_world([p[0] for p in pos], [p[1] for p in pos])
-        aper = SkyCircularAperture(SkyCoord(sky), 2.0 * u.arcsec)
+        aper = SkyCircularAperture(SkyCoord(sky), 0.65 * u.deg)
     yy, xx = np.mgrid[0:SIZE, 0:SIZE]
     error = np.full(data.shape, 0.1) + 0.01 * xx if cfg.get('error') else None
     unit = u.Jy if cfg.get('unit') else None
@@ -1018,6 +1020,9 @@ def configs(ctx):
          'local_bkg': True},
         {'cls': 'AS', 'n': 2, 'seed': 24, 'aper': 'sky', 'error': True, 'sigclip': True,
          'sum_method': 'subpixel', 'unit': True, 'local_bkg': True},
+        # sky apertures with the exact method on the wide-field WCS: the pixel radius depends on
+        # where the sky aperture is converted, and exact weights see a 0.05 % change of it
+        {'cls': 'AS', 'n': 3, 'seed': 26, 'aper': 'sky', 'error': True},
         {'cls': 'AS', 'n': 4, 'seed': 25, 'aper': 'rect', 'error': True, 'mask': True,
          'masked_source': True, 'offimage': True, 'sigclip': True, 'local_bkg': True},
         {'cls': 'AS', 'n': 1, 'seed': 26, 'aper': 'circ', 'error': False, 'mask': True,
